@@ -1532,7 +1532,7 @@ func ruleExpire(r *Report) {
 		// "never" is stored as 0 and Extend merges its delta into the stored value: the merge function of
 		// the expire column leaves 0 alone (with the default additive merge a row without a deadline gets
 		// one at epoch+delta and is removed by the next cleanup)
-		keeps := false
+		keeps, adds := false, false
 		allInstrs(fn, func(ins ssa.Instruction) {
 			cl, ok := ins.(*ssa.Call)
 			if !ok || cl.Call.StaticCallee() == nil || originOf(cl.Call.StaticCallee()).Name() != "WithMerge" || len(cl.Call.Args) != 1 {
@@ -1547,6 +1547,12 @@ func ruleExpire(r *Report) {
 				return
 			}
 			for _, ret := range returnsOf(mf) {
+				// a deadline that is set moves by the extension: deadline + delta
+				if bo, isB := norm(ret.Results[0]).(*ssa.BinOp); isB && bo.Op == token.ADD {
+					if (sameExpr(bo.X, mf.Params[0]) && sameExpr(bo.Y, mf.Params[1])) || (sameExpr(bo.X, mf.Params[1]) && sameExpr(bo.Y, mf.Params[0])) {
+						adds = true
+					}
+				}
 				if z, isC := constInt(ret.Results[0]); isC && z == 0 {
 					if onCmpEdge(ret.Block(), func(x, y ssa.Value) bool {
 						zx, isZx := constInt(x)
@@ -1558,6 +1564,7 @@ func ruleExpire(r *Report) {
 				}
 			}
 		})
+		hw.Check(adds, "column.NewCollection/expire-merge/adds", r.P.Pos(fn.Pos()), "the expire column's merge adds the extension to the stored deadline", "the merge function of the expire column does not return stored deadline + extension: Extend does not move the deadline by the time it was given")
 		hw.Check(keeps, "column.NewCollection/expire-merge", r.P.Pos(fn.Pos()), "the expire column's merge leaves a zero deadline (never) alone", "the expire column merges with the default addition: Extend on a row without a deadline (stored as 0) yields epoch+delta, a deadline in the past, and the next cleanup removes the row")
 		hx.Check(created, "column.NewCollection/expire-column", r.P.Pos(fn.Pos()), "CreateColumn(\"expire\", ForInt64())", "the expire column is not created as an int64 column at construction")
 		var gos []*ssa.Go
